@@ -115,7 +115,8 @@ def run(rep: common.Report, tier: str, seed: int, replay=None) -> int:
             expect_rejected(rep, "epsilon > 1", f"dev{di} callable, one region",
                             lambda out: solve(dev, out, disorder_epsilon=lambda r: 1.0 + 1e-6 * (r[0] > 0)), td, f"a{n}"); n += 1
             # 4. inconsistent options
-            bad_opts = [dict(dt_init=1e-2, dt_max=1e-3), dict(terminal_psi=1.0 + 1e-6), dict(terminal_psi=2.0),
+            bad_opts = [dict(dt_init=1e-2, dt_max=1e-3), dict(dt_init=1e-3 * (1 + 1e-6), dt_max=1e-3, adaptive=False),
+                        dict(dt_init=1e-2, dt_max=1e-3, adaptive=False), dict(terminal_psi=1.0 + 1e-6), dict(terminal_psi=2.0),
                         dict(adaptive_time_step_multiplier=0.0), dict(adaptive_time_step_multiplier=1.0),
                         dict(adaptive_time_step_multiplier=1.5), dict(screening_step_drag=0.0), dict(screening_step_drag=1.0 + 1e-6),
                         dict(screening_step_size=0.0), dict(screening_step_size=-1.0), dict(screening_tolerance=0.0),
@@ -210,15 +211,26 @@ def run(rep: common.Report, tier: str, seed: int, replay=None) -> int:
                                             (rng.choice(vals["drag"]), rng.choice(vals["size"]), rng.choice(vals["tol"]))):
                         cases.append((dti, dtm, psi, mult, drag, size, tol))
     impl = []
+    flag_dependent = []
     for (dti, dtm, psi, mult, drag, size, tol) in cases:
-        o = SolverOptions(solve_time=1.0, dt_init=float(dti), dt_max=float(dtm), terminal_psi=None if psi is None else float(psi),
-                          adaptive_time_step_multiplier=float(mult), screening_step_drag=float(drag), screening_step_size=float(size),
-                          screening_tolerance=float(tol))
-        try:
-            o.validate()
-            impl.append(1)
-        except ValueError:
-            impl.append(0)
+        verdicts = []
+        # the decision must not depend on switches that are not part of the checked relations (the model has none)
+        for adaptive, screening in ((True, False), (False, False), (True, True), (False, True)):
+            o = SolverOptions(solve_time=1.0, dt_init=float(dti), dt_max=float(dtm), terminal_psi=None if psi is None else float(psi),
+                              adaptive_time_step_multiplier=float(mult), screening_step_drag=float(drag), screening_step_size=float(size),
+                              screening_tolerance=float(tol), adaptive=adaptive, include_screening=screening)
+            try:
+                o.validate()
+                verdicts.append(1)
+            except ValueError:
+                verdicts.append(0)
+        impl.append(verdicts[0])
+        if len(set(verdicts)) > 1:
+            flag_dependent.append(((dti, dtm, psi, mult, drag, size, tol), verdicts))
+    for c_, v_ in flag_dependent[:5]:
+        rep.violation("inconsistent solver options are rejected or accepted depending on adaptive / include_screening "
+                      "(accepted in at least one setting)",
+                      {"options": [str(x) for x in c_], "accepted[(adaptive,screening)=(T,F),(F,F),(T,T),(F,T)]": v_})
     q = lambda f: f"({f.numerator}#{f.denominator})"
     lits = [f"(Build_vopts {q(a)} {q(b)} {('None' if c is None else '(Some ' + q(c) + ')')} {q(d)} {q(e)} {q(f)} {q(g)})"
             for (a, b, c, d, e, f, g) in cases]
